@@ -39,6 +39,8 @@ pub struct GenOpts {
     pub p_dup_solution: f64,
     /// Probability of a set with 17..=40 solutions.
     pub p_mid_sets: f64,
+    /// Probability of a mid-size graph (13..160 nodes).
+    pub p_mid_graphs: f64,
 }
 
 impl Default for GenOpts {
@@ -57,6 +59,7 @@ impl Default for GenOpts {
             big_graphs: 0.0,
             p_dup_solution: 0.0,
             p_mid_sets: 0.004,
+            p_mid_graphs: 0.004,
         }
     }
 }
@@ -354,6 +357,19 @@ fn gen_dag(r: &mut Rng, n: usize) -> AbsGraph {
     AbsGraph { children: ch }
 }
 
+/// A mid-size random DAG (13..160 nodes): every node has 0-3 children among the later nodes, some of them close by
+/// (long paths), some far away (wide levels).
+fn gen_sparse_dag(r: &mut Rng, n: usize) -> AbsGraph {
+    let mut ch: Vec<Vec<usize>> = vec![vec![]; n];
+    for i in 0..n - 1 {
+        for _ in 0..r.below(4) {
+            let j = if r.chance(0.5) { (i + 1 + r.below(3)).min(n - 1) } else { i + 1 + r.below(n - i - 1) };
+            ch[i].push(j);
+        }
+    }
+    AbsGraph { children: ch }
+}
+
 /// A graph at the validator's limits: a chain, or a fan of many leaves (at most 1000 edges).
 fn gen_big_dag(r: &mut Rng, n: usize) -> AbsGraph {
     let mut ch: Vec<Vec<usize>> = vec![vec![]; n];
@@ -421,8 +437,11 @@ pub fn gen_scenario(r: &mut Rng, o: &GenOpts) -> Scenario {
     for pidx in 0..npred {
         let mut computed = 0i64;
         let big = r.chance(o.big_graphs);
+        let mid = !big && r.chance(o.p_mid_graphs);
         let n = if big {
             *r.pick(&[200usize, 999, 1000])
+        } else if mid {
+            13 + r.below(150)
         } else {
             match r.below(10) {
                 0 => 1,
@@ -430,7 +449,13 @@ pub fn gen_scenario(r: &mut Rng, o: &GenOpts) -> Scenario {
                 _ => 1 + r.below(o.max_nodes),
             }
         };
-        let g = if big { gen_big_dag(r, n) } else { gen_dag(r, n) };
+        let g = if big {
+            gen_big_dag(r, n)
+        } else if mid {
+            gen_sparse_dag(r, n)
+        } else {
+            gen_dag(r, n)
+        };
         let (nodes, edges, _order) = encode_graph(r, &g);
         let mut progs = vec![];
         let mut ids = vec![];
